@@ -546,7 +546,7 @@ class SimNinja:
                 cands = [e for e in dirty_edges if e.outs[0] not in fault_for]
                 if f.get("rules"):
                     pref = [e for e in cands if any(e.rule.startswith(r) for r in f["rules"])]
-                    cands = pref or cands
+                    cands = pref if f["kind"] == "inner_fail" else (pref or cands)
                 if not cands:
                     res.resolved_faults.append({"planned": f, "resolved": None})
                     continue
@@ -610,7 +610,7 @@ class SimNinja:
             cmd = mf.binding(e, "command")
             rec["cmd"] = cmd
             if f is not None:
-                rec["fault"] = {k: f[k] for k in ("kind", "n") if k in f}
+                rec["fault"] = {k: f[k] for k in ("kind", "n", "code", "mode") if k in f}
             if f is not None and f["kind"] == "fail_before":
                 rec.update(status=["exit", 1], fired=True, reads=[], writes=[], wdigests={})
                 return rec
@@ -624,8 +624,15 @@ class SimNinja:
             lf = None
             if f is not None and f["kind"] in ("torn_efbig", "torn_kill"):
                 lf = {"kind": f["kind"], "n": f["n"]}
+            env, marker = self.env, None
+            if f is not None and f["kind"] == "inner_fail" and e.rule == "pngquant":
+                # the tool the step runs fails, not the step itself: a failing `pngquant` first on PATH
+                marker = os.path.join(os.path.dirname(self.step_log), "inner-%d.marker" % res.events)
+                env = dict(env)
+                env["PATH"] = os.path.join(os.path.dirname(os.path.abspath(__file__)), "shim_fail") + ":" + env["PATH"]
+                env["NSIM_INNER_FAULT"] = json.dumps({"code": f.get("code", 2), "mode": f.get("mode", "no_output"), "marker": marker})
             pid = zygote.launch(
-                argv, bdir, self.env,
+                argv, bdir, env,
                 os.devnull if lf else self.step_log,
                 fault=lf, trace=None if lf else self.trace, proc=e.outs[0],
                 readdir_seed=self.readdir_seed,
@@ -637,6 +644,9 @@ class SimNinja:
                 rec["fired"] = True
             if lf and st != ("exit", 0):
                 rec["fired"] = True
+            if marker is not None and os.path.exists(marker):
+                rec["fired"] = True
+                os.unlink(marker)
             rec["status"] = list(st)
             rec["reads"] = sorted(w.rel(p) for p in reads)
             rec["writes"] = sorted(w.rel(p) for p in writes)
